@@ -424,3 +424,18 @@ Example C12_nonvacuous_real :
   /\ (-2 < 0)
   /\ (-1 <> 0 /\ 0 <= 4 * 4 - 4 * -1 * (0 - 3) /\ -1 * (1 * 1) + 4 * 1 + 0 = 3 /\ 0 <= 2 * -1 * 1 + 4).
 Proof. repeat split; lra. Qed.
+
+(* hypotheses of C12_ts0_zerosig / C12_computable_nsprofile / C12_gamma_objective are
+   satisfiable: one floating parameter, fit result ns = 0, 3 selected + 5 pure
+   background events, cached gradients (1/2, 0, -1/4); a two-point tail *)
+Example C12_nonvacuous_callees :
+  get_gflp_idx [7]%Z 7%Z = Ok 0%Z
+  /\ py_get [0] 0%Z = Ok 0 /\ py_get [3 / 2] 0%Z = Ok (3 / 2)
+  /\ zlen [0] = zlen [7%Z]
+  /\ (0 <= 3)%Z /\ (0 <= 5)%Z /\ (0 < 3 + 5)%Z
+  /\ ((0 < 5)%Z \/ exists x, In x [1 / 2; 0; - (1 / 4)] /\ x <> 0)
+  /\ np_guard 0 = false /\ np_guard 1 = true
+  /\ (1 / 2 < 1) /\ (forall q, In q [2; 1 / 3] -> 0 < q).
+Proof.
+  repeat split; try reflexivity; try lia; try lra; try (left; lia); try (intros q [<-|[<-|[]]]; lra).
+Qed.
